@@ -398,9 +398,9 @@ func runScenario(sc Scenario) Result {
 			time.Sleep(sc.Delta)
 		}
 		if sc.CloseWhenFull && !res.QueueFullAtClose {
-			// the queue never became full: let the backlog shrink to an eighth before closing, so that what is left drains
+			// the queue never became full: let the backlog shrink to a sixteenth before closing, so that what is left drains
 			// well within the bounded wait of the graceful close
-			for k := 0; k < 120000 && protocol.VerifC03SendQueueRemaining(c) < protocol.VerifC03SegmentTreeCapacity*7/8; k++ {
+			for k := 0; k < 120000 && protocol.VerifC03SendQueueRemaining(c) < protocol.VerifC03SegmentTreeCapacity*15/16; k++ {
 				time.Sleep(time.Millisecond)
 			}
 		}
